@@ -330,20 +330,17 @@ namespace awkward {
 
   const Index8
   ByteMaskedArray::bytemask() const {
-    if (!valid_when_) {
-      return mask_;
-    }
-    else {
-      Index8 out(length());
-      struct Error err = kernel::ByteMaskedArray_mask8(
-        kernel::lib::cpu,   // DERIVE
-        out.data(),
-        mask_.data(),
-        mask_.length(),
-        valid_when_);
-      util::handle_error(err, classname(), identities_.get());
-      return out;
-    }
+    // always through the kernel: any non-zero byte of mask_ is "true",
+    // but the byte mask handed out holds only 0 and 1
+    Index8 out(length());
+    struct Error err = kernel::ByteMaskedArray_mask8(
+      kernel::lib::cpu,   // DERIVE
+      out.data(),
+      mask_.data(),
+      mask_.length(),
+      valid_when_);
+    util::handle_error(err, classname(), identities_.get());
+    return out;
   }
 
   const ContentPtr
